@@ -207,6 +207,13 @@ def structural(rng, b, v1):
         var(base, "extra-top-key", lambda r: r.__setitem__("zzz", 1))
         var(base, "version-missing", lambda r: r.pop("version", None))
         var(base, "command-case", lambda r: r.__setitem__("command", r["command"].upper()))
+    # very long request lines (an ignored key carrying 1 MiB / 17 MiB / 33 MiB): the
+    # documents set no limit on a request's size
+    for base in ("version", "getPubKey"):
+        if base in b:
+            for mib in (1, 17, 33):
+                var(base, "ignored-key-of-%d-MiB" % mib,
+                    lambda r, mib=mib: r.__setitem__("pad", "a" * (mib << 20)))
     if v1:
         for c in dp.V5_COMMANDS[3:]:
             out.append(("v5cmd", "v5-only-command", {"command": c, "version": 1}))
@@ -403,6 +410,28 @@ def make_device(rng):
     return dev
 
 
+def shrink(o):
+    """replay cases must stay small: a very long string of one repeated character becomes
+    {"__repeat__": [char, n]} (see expand)"""
+    if isinstance(o, str) and len(o) > 10000 and len(set(o)) == 1:
+        return {"__repeat__": [o[0], len(o)]}
+    if isinstance(o, dict):
+        return {k: shrink(v) for k, v in o.items()}
+    if isinstance(o, list):
+        return [shrink(v) for v in o]
+    return o
+
+
+def expand(o):
+    if isinstance(o, dict) and list(o) == ["__repeat__"]:
+        return o["__repeat__"][0] * o["__repeat__"][1]
+    if isinstance(o, dict):
+        return {k: expand(v) for k, v in o.items()}
+    if isinstance(o, list):
+        return [expand(v) for v in o]
+    return o
+
+
 def fl_cmd_apdu(e):
     """an APDU that belongs to a command (not to the bring-up after a reconnection)"""
     a = e.get("apdu") or b""
@@ -448,7 +477,7 @@ def check_one(acc, st, v1, name, label, req):
     del s.bus.events[:]
     del dev.sign_records[:]
     del dev.adv_records[:]
-    case = {"v1": v1, "request": req}
+    case = {"v1": v1, "request": shrink(req) if len(line) > 200000 else req}
     cmd = req.get("command") if isinstance(req, dict) else None
     cmdname = cmd if isinstance(cmd, str) and len(cmd) < 30 else "?"
     reply = None
@@ -516,4 +545,4 @@ def run_shard(spec, acc):
 
 def replay(case, acc):
     env.setup()
-    check_one(acc, {}, case["v1"], "replay", "replay", case["request"])
+    check_one(acc, {}, case["v1"], "replay", "replay", expand(case["request"]))
